@@ -657,6 +657,15 @@ func all() []scen {
 		{"link-vs-snapshot", abc, []explore.Thread{link("l1", "a", "b"), link("l2", "a", "c"), snapshotter("s")}, oracleLinksAfterRestart},
 		{"link-vs-rewrite", abc, []explore.Thread{link("l1", "a", "b"), link("l2", "c", "a"), rewriter("r")}, oracleLinksAfterRestart},
 		{"delete-vs-link", abc, []explore.Thread{deleter("del", "b"), link("l", "a", "b")}, nil},
+		// one client: delete b, add b again, link a->b and b->c. The cascade of the delete runs
+		// in the background; the links made to the new b after the delete returned are not its to
+		// remove ("unless it is explicitly linked again", "a re-added id behaves as new")
+		{"delete-readd-relink", abc, []explore.Thread{guard("client", func(w *world) {
+			w.do("client", "vdel:b", "", func() string { return errStr(w.e.VDelete("i", "b")) })
+			w.do("client", "vadd", "b", func() string { return errStr(w.e.VAdd("i", "b", []float32{5, 5}, nil)) })
+			w.do("client", "link", "a>b", func() string { return errStr(w.e.VLink("i", "a", "b", "r", "", 1, nil)) })
+			w.do("client", "link", "b>c", func() string { return errStr(w.e.VLink("i", "b", "c", "r", "", 1, nil)) })
+		})}, oracleLinksAfterRestart},
 	}
 }
 
